@@ -1,0 +1,54 @@
+//! Verification hooks, only compiled with the cargo feature `verif`.
+//! They add observability and delay failpoints, but never change behaviour.
+use crate::document::DocumentRequest;
+use color_eyre::eyre::{Context, Result};
+use lsp_types::TextDocumentIdentifier;
+use std::sync::atomic::{AtomicU64, Ordering};
+use tokio::sync::{mpsc::Sender, oneshot};
+
+pub const TEXT_METHOD: &str = "$/verif/text";
+
+/// Returns the broker's current text of a document.
+/// Takes the same path through the broker as every other request.
+pub async fn text(
+    doctx: Sender<DocumentRequest>,
+    params: TextDocumentIdentifier,
+) -> Result<Option<String>> {
+    let (tx, rx) = oneshot::channel();
+    doctx
+        .send(DocumentRequest::GetInfo(params.uri, tx))
+        .await
+        .wrap_err("Cannot send document request")?;
+    let doc = rx.await.wrap_err("Cannot recieve document request")?;
+    Ok(doc.map(|doc| doc.text))
+}
+
+static JITTER: AtomicU64 = AtomicU64::new(0x9E37_79B9_7F4A_7C15);
+
+/// Delay failpoint at an existing suspension point.
+/// `VERIF_DELAY_<POINT>_US` is the (maximum) delay in microseconds.
+/// With `VERIF_DELAY_JITTER` set, the delay varies pseudo-randomly between 0 and the maximum.
+/// Does nothing if the variable is not set.
+pub async fn delay(point: &str) {
+    let Some(max) = std::env::var(format!("VERIF_DELAY_{}_US", point))
+        .ok()
+        .and_then(|value| value.parse::<u64>().ok())
+    else {
+        return;
+    };
+    let micros = if std::env::var_os("VERIF_DELAY_JITTER").is_some() {
+        let mut x = JITTER.load(Ordering::Relaxed);
+        x ^= x << 13;
+        x ^= x >> 7;
+        x ^= x << 17;
+        JITTER.store(x, Ordering::Relaxed);
+        x % (max + 1)
+    } else {
+        max
+    };
+    if micros > 0 {
+        tokio::time::sleep(std::time::Duration::from_micros(micros)).await;
+    } else {
+        tokio::task::yield_now().await;
+    }
+}
